@@ -752,11 +752,17 @@ func (tm *TaskMaster) forkPoint(p edge.PointMessage) {
 	}
 
 	// Merge the results to the forks map
-	for _, edge := range tm.forks[key] {
+	served := tm.forks[key]
+	for _, edge := range served {
 		_ = edge.Collect(p)
 	}
 
-	for _, edge := range tm.forks[emptyMeasurementKey] {
+	// A task has a single edge: if it also subscribed to this measurement
+	// it has already received the point above.
+	for name, edge := range tm.forks[emptyMeasurementKey] {
+		if _, ok := served[name]; ok {
+			continue
+		}
 		_ = edge.Collect(p)
 	}
 
